@@ -10,7 +10,7 @@ import props as _props
 
 
 def translators(repo):
-    r = cl.run(["python3", os.path.join(cl.HERE, "gen_footprint.py"), "--repo", repo])
+    r = cl.run(["python3", os.path.join(cl.HERE, "gen_footprint.py"), "--repo", repo, "--tier", os.environ.get("VERIF_TIER", "quick")])
     info = {"ok": r.returncode == 0}
     if r.returncode != 0:
         info["err"] = (r.stdout + r.stderr)[-2000:]
@@ -38,6 +38,18 @@ def short_report(rep, n=28):
     return "\n".join(keep[:n])
 
 
+def replay_env(env, first):
+    renv = dict(env)
+    if first.startswith("conc17 "):
+        renv["VERIF_ONLY"] = '"%s"' % " ".join(first.split()[1:3])     # replays that round alone
+    elif first.startswith("conc17f ") and len(first.split()) > 4:
+        f = first.split()
+        renv["VERIF_FIRST"] = '"%s %s %s"' % (f[1], f[3], f[4])         # that first-use round alone, in a fresh process
+        renv.pop("VERIF_FIRSTONLY", None)
+        renv.pop("VERIF_FIRST_REPS", None)
+    return renv
+
+
 def run_tsan_stream(ctx, res, label, exe, env, what):
     e = {"TSAN_OPTIONS": "exitcode=66 halt_on_error=0 report_signal_unsafe=0", **env}
     rc_before = res.harness_rc
@@ -45,25 +57,23 @@ def run_tsan_stream(ctx, res, label, exe, env, what):
     if h is None:
         return 0
     reps = tsan_reports(h.stderr)
+    # (run_stream pipes the harness's stdout to the driver: the failing lines come back as SPECFAIL entries)
+    failed_lines = [sf["line"] for sf in res.specfail if sf.get("stream") == label]
     if reps:
-        lines = [l for l in h.stdout.splitlines() if l and not l.startswith("#")]
+        lines = failed_lines or [l for l in h.stdout.splitlines() if l and not l.startswith("#")]
         bad = [l for l in lines if not l.rstrip().endswith("=> 1 0")]
         first = (bad[0] if bad else (lines[0] if lines else label))
-        renv = dict(env)
-        if first.startswith("conc17 "):
-            renv["VERIF_ONLY"] = '"%s"' % " ".join(first.split()[1:3])     # replays that round alone
-        env = renv
         ctx.setdefault("failing_inputs", []).append({
             "kind": "tsan-race", "line": first[:400],
             "what": what, "reports": len(reps), "first_report": short_report(reps[0]),
-            "replay": "%s %s" % (" ".join("%s=%s" % kv for kv in sorted(env.items())), exe)})
+            "replay": "%s %s" % (" ".join("%s=%s" % kv for kv in sorted(replay_env(env, first).items())), exe)})
     verdicts = [l for l in h.stderr.splitlines() if l.startswith(("conc17:", "conc18:"))]
     if verdicts:
-        lines = [l for l in h.stdout.splitlines() if l and not l.startswith("#")]
+        lines = failed_lines or [l for l in h.stdout.splitlines() if l and not l.startswith("#")]
         bad = [l for l in lines if not l.rstrip().endswith("=> 1 0") and not l.startswith("conc18 ")] or lines[:1]
         ctx.setdefault("failing_inputs", []).append({
             "kind": "harness-verdict", "line": (bad[0] if bad else label)[:300], "what": what, "verdict": verdicts[:6],
-            "replay": "%s %s" % (" ".join("%s=%s" % kv for kv in sorted(env.items())), exe)})
+            "replay": "%s %s" % (" ".join("%s=%s" % kv for kv in sorted(replay_env(env, bad[0] if bad else "").items())), exe)})
     if reps:
         pass
     elif h.returncode not in (0,):
@@ -84,21 +94,43 @@ def streams(ctx, res):
             "kind": "static-store", "line": "footprint %s %s %s" % (off["backend"], off["cfg"], off["op"]),
             "static_objects_written": sorted({s[0] for s in off["stores"]}), "first_offsets": [s[1] for s in off["stores"]][:8],
             "stores_in_window": off["n"], "offending_windows": len(gen.get("offenders", [])),
-            "note": "operation on private objects stores into the executable's static storage (valgrind-lackey trace of harness/footprint.cpp); Nfl.C17.footprint_ok no longer holds",
-            "replay": "python3 tools/gen_footprint.py --repo %s --force" % cl.REPO})
+            "in_preparation_code": off.get("in_preparation", 0),
+            "note": "the FIRST execution of this operation after static initialisation (fresh process, private objects) stores into the executable's static storage (harness/footprint.cpp; backend */wp = native write-protection instrument, otherwise valgrind-lackey trace); Nfl.C17.footprint_ok no longer holds",
+            "replay": "python3 tools/gen_footprint.py --repo %s --tier %s --force" % (cl.REPO, ctx["tier"])})
     specs = [dict(name="conc17", backend=b, sanitize="thread") for b in ("serial", "sse", "avx2")]
+    # the same source without a sanitizer (own name: build_harness keeps one binary per (name, backend)): first-use rounds at real speed
+    specs += [dict(name="conc17n", backend=b, sanitize=None, srcs=[os.path.join(cl.HARNESS, "conc17.cpp")]) for b in ("serial", "avx2")]
     exes, errs = cl.build_harnesses(specs)
     for k, e in errs.items():
         ctx["problems"].append({"kind": "harness-build", "what": "conc17 does not compile for %s" % (k,), "detail": e})
     nrep = 0
+    # ThreadSanitizer streams: a happens-before detector does not depend on timing, so the three backends run side by side
+    from concurrent.futures import ThreadPoolExecutor
+    tsan_jobs = [(b, exe) for (name, b), exe in sorted(exes.items()) if name == "conc17"]
+
+    def one(job):
+        b, exe = job
+        r = cl.StreamResult()
+        n = run_tsan_stream(ctx, r, "conc17/" + b, exe, {"VERIF_SEED": str(ctx["seed"]), "VERIF_TIER": ctx["tier"]},
+                            "data race while threads run arithmetic API operations on private polynomials (first-use rounds: conc17f lines)")
+        return r, n
+    with ThreadPoolExecutor(max_workers=3) as ex:
+        parts = list(ex.map(one, tsan_jobs))
+    cl.merge_results(res, [r for r, _ in parts])
+    nrep = sum(n for _, n in parts)
+    # unsanitised first-use rounds: timing matters (lockstep), one after the other
     for (name, b), exe in sorted(exes.items()):
-        nrep += run_tsan_stream(ctx, res, "conc17/" + b, exe, {"VERIF_SEED": str(ctx["seed"]), "VERIF_TIER": ctx["tier"]},
-                                "data race while threads run arithmetic API operations on private polynomials")
+        if name == "conc17n":
+            run_tsan_stream(ctx, res, "conc17-native-first-use/" + b, exe,
+                            {"VERIF_SEED": str(ctx["seed"]), "VERIF_TIER": ctx["tier"], "VERIF_FIRSTONLY": "1",
+                             "VERIF_FIRST_REPS": "24" if ctx["tier"] == "thorough" else "6"},
+                            "threads performing the FIRST execution of the arithmetic operations in a process (unsanitised build, lockstep) get results that differ from a sequential process, or crash")
     total_specfail = len(res.specfail)
     if len(res.specfail) > 6:      # keep the replay file readable: a few failing rounds + the race report + the static store
         del res.specfail[6:]
     return {"backends": sorted(b for (_, b) in exes), "tsan_reports": nrep, "failing_rounds": total_specfail,
-            "footprint": {k: gen.get(k) for k in ("repo_hash", "cached", "entries", "ops_per_backend", "init_stores",
+            "footprint": {k: gen.get(k) for k in ("repo_hash", "cached", "tier", "entries", "ops_per_backend", "configs", "lackey_groups", "wp_configs",
+                                                   "fresh_processes", "trace_s", "init_stores",
                                                    "static_loads_in_windows", "static_stores_in_windows", "statics_read",
                                                    "static_range", "between_window_stores")}}
 
@@ -114,10 +146,10 @@ def search(ctx, res, problems):
 
 PROP = {
     "streams": streams, "search": search, "translators": translators,
-    "rule": "footprint: 171 operation windows x 3 backends traced in the real binary on every change of /repo (construct, transform, +, -, *, shoup, compare, big-integer conversion, serialise, text output; poly and poly_p; degrees 16/32 and 2048); runtime: 2..16 threads x rounds, each thread a seeded mixed sequence of API operations on private objects in 7 configurations (poly/poly_p, 16/32/64-bit limbs, degree 64..2048), digests compared with the same sequences run sequentially, under ThreadSanitizer, three backends; distinct = distinct (threads, round-seed) rounds",
+    "rule": "footprint (regenerated on every change of /repo, 3 backends): FIRST execution after static initialisation of every operation (construct, transform, +, -, *, shoup, compare, big-integer conversion, serialise, text output; poly and poly_p), preparation code included, each configuration (group) in a fresh process; instruments: valgrind-lackey store/load trace (degrees 16/32, 2048 u32 and u64 with the inverse transform first; thorough: + 65536) and native write-protection of .data/.bss with a canary (every configuration: one per degree class of the bit-reversal path x limb width - 16/32/512/1024 unrolled, 2048/32768 static 16-bit table, 65536 (1 and 2 moduli; thorough 2^20) 32-bit table). runtime: (a) first-use rounds - per degree class a fresh process whose main thread executes nothing; pairs of worker threads per type, released by a barrier, perform the first execution of every operation (prologue) then a mixed sequence; digests compared with a SEPARATE sequential process; under ThreadSanitizer (3 backends) and unsanitised in lockstep (2 backends x 6 repetitions; thorough 24); (b) 2..16 threads x rounds, each thread a seeded mixed sequence of API operations on private objects in 7 configurations (poly/poly_p, 16/32/64-bit limbs, degree 64..2048), digests compared with the same sequences run sequentially, under ThreadSanitizer, three backends; distinct = distinct (threads, round-seed) rounds",
     "trusted_base": _props.COMMON_TB + [
         "PARTIAL: the theorems are about the interleaving model of Model/Conc.lean (atomic accesses, sequentially consistent memory); that a real execution is such an interleaving at this granularity is not proved; real schedules are observed under ThreadSanitizer (happens-before detector: flags a conflicting unordered pair whatever the timing of that run, but only on code paths the run executes)",
-        "valgrind 3.19 lackey reports every load/store of the traced run; readelf/nm give the static storage range and symbols of the non-PIE harness; the footprint of the traced run (fixed inputs, degrees 16/32/2048) is taken as the footprint of the operation",
+        "valgrind 3.19 lackey reports every load/store of the traced run; readelf/nm give the static storage range and symbols of the non-PIE harness; mprotect(PROT_READ) makes every store into a page fault with the exact address (stores performed by the kernel on behalf of a system call would fail instead of being recorded; the canary operation shows on every run that user-mode stores are seen); the footprint of the traced runs (fixed inputs, first execution in a fresh process, one configuration per degree class x limb width) is taken as the footprint of the operation",
         "statics internal to libc / libstdc++ / libgmp (malloc arenas, locale, GMP allocation hooks) and heap blocks reachable from NFLlib's statics (GMP limbs of poly::gmp) are outside the traced range: covered by the libraries' thread-safety contract and, at run time, by ThreadSanitizer's interception of malloc/free",
         "ThreadSanitizer (gcc 12 libtsan) instruments the NFLlib headers and lib/*.cpp as compiled into the harness; uninstrumented code (libgmp, the Salsa20 assembly) is invisible to it",
     ],
